@@ -240,8 +240,9 @@ def make_programs(pid, tier, rng):
     if pid == "C07":
         progs += c07_growth_programs(rng, thorough)
         progs += capacity_witnesses()[0]
-    if pid in ("C14", "C07"):
-        # histories generated by TLC from the specification itself (spec -> impl direction)
+    if pid in ("C14", "C07", "C06", "C08", "C16"):
+        # histories generated by TLC from the specification itself (spec -> impl direction): random interleavings of
+        # builds, queries, iterator steps, saves, loads through every loader / option (also of foreign images), destroys
         progs += tlc_programs(pid, 1500 if thorough else 250, vlib.seed() + int(pid[1:]))
     # one probe per kind that is only usable after load (recorded finding): queries on the built object
     if pid in ("C01", "C07"):
@@ -571,6 +572,16 @@ def design_run(pid, tier):
         r["distinct"] = (r.distinct or 0) + (f.distinct or 0)
         r["generated"] = (r.generated or 0) + (f.generated or 0)
         r["frontcoding_states"] = f.distinct
+    if pid in ("C05", "C04", "C03"):
+        # mechanism model of the FM-index kind: suffix array, BWT, backward search, LF walk, sampling, ID arithmetic
+        cfgm = os.path.join(vlib.CACHE, "cfg", "fmindexspec_%s_%s.cfg" % (pid, tier))
+        open(cfgm, "w").write("SPECIFICATION Spec\nCONSTANTS Sigma = {97, 98}\nMaxLen = %d\nMaxN = 3\nSteps = {1, 2, 3}\nINVARIANT Inv\nCHECK_DEADLOCK FALSE\n" % (3 if tier == "thorough" else 2))
+        m = vlib.tlc("FMIndexSpec", cfgm, workers=8, timeout=3000, java_opts=["-Xmx8g"])
+        if m.rc != 0:
+            raise RuntimeError("FMIndexSpec.tla failed: rc=%s violated=%s" % (m.rc, m.violated))
+        r["distinct"] = (r.distinct or 0) + (m.distinct or 0)
+        r["generated"] = (r.generated or 0) + (m.generated or 0)
+        r["fmindexspec_states"] = m.distinct
     if pid in ("C01", "C02", "C12"):
         # mechanism model of the hash kinds: double-hash probing with arbitrary hash functions
         h = vlib.tlc("HashProbe", "HashProbe.cfg" if tier == "quick" else "HashProbe3.cfg", workers=8, timeout=3000, java_opts=["-Xmx12g"])
